@@ -106,6 +106,7 @@ let rec out_str = function
   | OErr e -> "err(" ^ err_name e ^ ")"
   | OPanic -> "panic"
   | OFuel -> "fuel"
+  | OPArr (sh, es) -> "parr(" ^ shape_str sh ^ ":" ^ String.concat "," (List.map (fun (a, b) -> z_to_string a ^ "/" ^ z_to_string b) es) ^ ")"
   | OList l -> "list(" ^ String.concat ";" (List.map out_str l) ^ ")"
   | OBad -> "bad"
 
